@@ -498,7 +498,35 @@ func Forall(bound []*Term, body *Term) *Term {
 	if body.IsTrue() || len(bound) == 0 {
 		return body
 	}
+	// distribute over conjunctions: many small quantified facts are far easier
+	// for the solvers than one quantified conjunction
+	if body.op == "and" {
+		parts := make([]*Term, len(body.args))
+		for i, a := range body.args {
+			parts[i] = Forall(bound, a)
+		}
+		return And(parts...)
+	}
+	if body.op == "=>" && body.args[1].op == "and" {
+		parts := make([]*Term, len(body.args[1].args))
+		for i, a := range body.args[1].args {
+			parts[i] = Forall(bound, Implies(body.args[0], a))
+		}
+		return And(parts...)
+	}
 	return &Term{op: "forall", bound: bound, args: []*Term{body}, sort: SBool}
+}
+
+func hasQuantifier(t *Term) bool {
+	if t.op == "forall" || t.op == "exists" {
+		return true
+	}
+	for _, a := range t.args {
+		if hasQuantifier(a) {
+			return true
+		}
+	}
+	return false
 }
 
 func Exists(bound []*Term, body *Term) *Term {
